@@ -161,6 +161,20 @@ def modelFrags (fuel : Nat) (withBot : Bool) (c0 : Coll) : List FragRes :=
 def pixOf (es : List Elem) : Option (List Nat × List Bytes) :=
   es.findSome? fun e => match e with | .pix b f => some (b, f) | _ => Option.none
 
+mutual
+/-- every encapsulated pixel data element of the tree, at any depth -/
+def elemPixes : Elem → List (List Nat × List Bytes)
+  | .pix b f => [(b, f)]
+  | .seq _ _ its => itemsPixes its
+  | _ => []
+def itemsPixes : Items → List (List Nat × List Bytes)
+  | .nil => []
+  | .cons _ es r => elemsPixes es ++ itemsPixes r
+def elemsPixes : Elems → List (List Nat × List Bytes)
+  | .nil => []
+  | .cons e r => elemPixes e ++ elemsPixes r
+end
+
 def hasNativePix (es : List Elem) : Bool :=
   es.any fun e => match e with | .prim t _ _ _ => t == Tag.pixelData | _ => false
 
@@ -208,8 +222,9 @@ def handle (line : String) : String :=
           let portionFail := portions.any fun p => match p with | .ok _ => false | _ => true
           let portionEs := portions.flatMap fun p => match p with | .ok es => es | _ => []
           let wPix := pixOf wEs
-          let zeroFrag := match wPix with | some (_, fr) => fr.any (·.isEmpty) | Option.none => false
-          let emptyBotWithFrags := match wPix with | some (b, fr) => b.isEmpty && !fr.isEmpty | Option.none => false
+          let allPix := elemsPixes (elemsOfList wEs)
+          let zeroFrag := allPix.any fun p => p.2.any (·.isEmpty)
+          let emptyBotWithFrags := allPix.any fun p => p.1.isEmpty && !p.2.isEmpty
           let nested := nestedPix wEs
           let pixClass (what : String) : String :=
             if emptyBotWithFrags then s!"PROP-FAIL class=collector-empty-offset-table-takes-first-fragment {what}: with an empty basic offset table the first fragment is decoded as the offset table"
